@@ -317,27 +317,25 @@ def localtime_pairing(R, lib, ob):
     H, M, Sx = (Poly.atom(('sym', 'this.' + n)) for n in ('mHour', 'mMinute', 'mSecond'))
     ok = any(kind == 'return' and res is not None and _P(res) == H * Poly.const(3600) + M * Poly.const(60) + Sx for gd, kind, res, eff in s.paths)
     ob('R5', g.name, g.loc, ok, 'toSeconds() is not (hour*60 + minute)*60 + second on the valid path')
+    # isError(), interpreted (E-SEQ, typed) on stored bytes: false exactly for 00:00:00..23:59:59 and 24:00:00
+    from .aeval import AEval, CxxModule, Raised, cxx_object
     e = lib.fn('ace_time::LocalTime::isError')
-    sx = SymExec(fold_global=lib.global_value)
-    sx.bool_return = True
-    s = sx.run(e.name, e.body, {})
-    # the non-error paths must imply second < 60, minute < 60, hour <= 24 (and 24:00:00 only)
-    from .gnf import eval_formula
+    mod = CxxModule(lib, ['ace_time::'])
     bad = []
-    for hh in (0, 23, 24, 25, 255):
-        for mm in (0, 59, 60, 255):
-            for ss in (0, 59, 60, 255):
-                def assign(a, hh=hh, mm=mm, ss=ss):
-                    return {('sym', 'this.mHour'): hh, ('sym', 'this.mMinute'): mm, ('sym', 'this.mSecond'): ss}.get(a)
-                vals = set()
-                for gd, kind, res, eff in s.paths:
-                    try:
-                        if eval_formula(gd, assign):
-                            vals.add(bool(_P(res).const_value()) if res is not None and _P(res).is_const() else None)
-                    except KeyError:
-                        vals.add(None)
+    edge = (0, 1, 23, 24, 25, 59, 60, 61, 128, 255)
+    for hh in edge:
+        for mm in edge:
+            for ss in edge:
+                o = cxx_object(lib, 'ace_time::LocalTime')
+                if not {'mHour', 'mMinute', 'mSecond'} <= set(o.attrs):
+                    raise AnalysisError('%s: the time fields mHour / mMinute / mSecond are not where the rule expects them' % e.loc)
+                o.attrs.update({'mHour': hh, 'mMinute': mm, 'mSecond': ss})
+                try:
+                    got = bool(AEval(module=mod, typed=True, max_steps=5000).call_function(e.name, [], recv=o, chosen=CxxModule._Fn(e)))
+                except Raised:
+                    got = None
                 valid = ss < 60 and mm < 60 and (hh < 24 or (hh == 24 and mm == 0 and ss == 0))
-                if vals != {not valid}:
+                if got is not (not valid):
                     bad.append((hh, mm, ss))
     ob('R5', e.name, e.loc, not bad, 'isError() misclassifies (hour, minute, second) in %s' % bad[:4])
 
